@@ -535,12 +535,41 @@ func (c *Ctx) classifyNormalizeReturn(v ssa.Value, depth int) []string {
 				g := staticCallee(call)
 				if g != nil && c.IsLib(c.declared(g)) {
 					if isCanonicalStatic(c, x.Type()) {
+						// a typed nil map/slice handed back as a successful result is not the canonical (non-nil) container
+						nilRes := false
+						gd := c.declared(g)
+						if ei := errResultIndex(gd.Signature); ei >= 0 {
+							for _, ret := range returnsOf(gd) {
+								rv, ok1 := returnedValue(ret, x.Index)
+								ev, ok2 := returnedValue(ret, ei)
+								if ok1 && ok2 && isNilConst(rv) && !c.provablyNonNil(gd, ev, ret.Block()) {
+									nilRes = true
+								}
+							}
+						}
+						if nilRes {
+							out = append(out, "nil-result:"+c.fname(gd))
+						}
 						out = append(out, "canon:"+typeString(x.Type()))
 						continue
 					}
 					g = c.declared(g)
 					for _, ret := range returnsOf(g) {
 						if rv, ok := returnedValue(ret, x.Index); ok {
+							if isNilConst(rv) {
+								// nil next to an error is the failure path; nil next to a nil error is a result
+								ei := errResultIndex(g.Signature)
+								if ei < 0 {
+									out = append(out, "nil") // no error result: a plain nil (nil pointer input, "not handled here")
+									continue
+								}
+								if ev, ok := returnedValue(ret, ei); ok && c.provablyNonNil(g, ev, ret.Block()) {
+									out = append(out, "nilerr")
+									continue
+								}
+								out = append(out, "nil-result:"+c.fname(g))
+								continue
+							}
 							out = append(out, c.classifyNormalizeReturn(rv, depth+1)...)
 						}
 					}
@@ -681,6 +710,9 @@ func ruleCMP5(c *Ctx) []Ob {
 			bad := ""
 			for _, cl := range cls {
 				switch {
+				case cl == "nilerr":
+				case strings.HasPrefix(cl, "nil-result:"):
+					bad = "nil (returned as a result, with a nil error, by " + strings.TrimPrefix(cl, "nil-result:") + ")"
 				case cl == "nil":
 				case strings.HasPrefix(cl, "canon:"):
 					if strings.TrimPrefix(cl, "canon:") != want[kn] {
@@ -712,8 +744,10 @@ func ruleCMP5(c *Ctx) []Ob {
 		for _, cl := range c.classifyNormalizeReturn(rv, 0) {
 			key := "Normalize/return " + cl
 			switch {
-			case cl == "nil" || strings.HasPrefix(cl, "canon:"):
+			case cl == "nil" || cl == "nilerr" || strings.HasPrefix(cl, "canon:"):
 				o.add(OK, key, relPath(c, ret.Pos()), "canonical result type")
+			case strings.HasPrefix(cl, "nil-result:"):
+				o.add(VIOLATED, "Normalize/return nil result of a helper", relPath(c, ret.Pos()), "%s returns nil as a successful result: a non-nil input (an empty map, an empty slice) is normalised to nil - the stored field changes from {} to null, and code that writes into the sub-map panics on the nil map", strings.TrimPrefix(cl, "nil-result:"))
 			case strings.HasPrefix(cl, "passthrough:"):
 				pass++
 				o.add(INFO, key, relPath(c, ret.Pos()), "pass-through pinned by clover's own tests (BinaryMarshaler / time.Time / internal.Value / []byte)")
@@ -1461,6 +1495,92 @@ func ruleEMPTY1(c *Ctx) []Ob {
 	}
 	if n == 0 {
 		o.add(UNDECIDED, "containers", "-", "no container-valued returns found in util/internal/document")
+	}
+	return o.list
+}
+
+// ---------------------------------------------------------------- CMP8
+
+// fromDynamicValue: v is a number or string taken out of an interface{} value
+// (type assertion, type-switch binding, or a util conversion helper applied to
+// an interface{}), possibly converted afterwards.
+func (c *Ctx) fromDynamicValue(v ssa.Value, depth int, seen map[ssa.Value]bool) bool {
+	if v == nil || seen[v] || depth > 6 {
+		return false
+	}
+	seen[v] = true
+	for _, og := range origins(v) {
+		switch x := og.(type) {
+		case *ssa.TypeAssert:
+			if _, isIface := x.X.Type().Underlying().(*types.Interface); isIface {
+				if _, toIface := x.AssertedType.Underlying().(*types.Interface); !toIface {
+					return true
+				}
+			}
+		case *ssa.Extract:
+			if ta, ok := x.Tuple.(*ssa.TypeAssert); ok && x.Index == 0 {
+				if _, isIface := ta.X.Type().Underlying().(*types.Interface); isIface {
+					if _, toIface := ta.AssertedType.Underlying().(*types.Interface); !toIface {
+						return true
+					}
+				}
+			}
+		case *ssa.Convert:
+			if c.fromDynamicValue(x.X, depth+1, seen) {
+				return true
+			}
+		case *ssa.Call:
+			g := staticCallee(x)
+			if g != nil && c.IsLib(c.declared(g)) && c.pkgRel(c.declared(g)) == "util" {
+				for _, a := range x.Common().Args {
+					if _, isIface := a.Type().Underlying().(*types.Interface); isIface {
+						return true
+					}
+				}
+			}
+		}
+	}
+	return false
+}
+
+// CMP8: values are ordered by internal.Compare and by nothing else. Outside
+// packages internal and util, no ordering comparison (<, <=, >, >=) or
+// subtraction is applied to two operands that were both taken out of
+// interface{} values (document fields, criteria operands, range bounds): a
+// private fast path for "the common types" is a second comparator, and the two
+// disagree at the edges (uint64 above MaxInt64 cast to int64, int64 differences
+// that wrap, mixed int/float).
+func ruleCMP8(c *Ctx) []Ob {
+	o := newObs(c, "CMP8")
+	n := 0
+	for _, fn := range c.LibFuncs {
+		rel := c.pkgRel(fn)
+		if rel == "internal" || rel == "util" || strings.HasPrefix(rel, "store") {
+			continue
+		}
+		k := 0
+		for _, b := range fn.Blocks {
+			for _, in := range b.Instrs {
+				bo, ok := in.(*ssa.BinOp)
+				if !ok {
+					continue
+				}
+				switch bo.Op {
+				case token.LSS, token.LEQ, token.GTR, token.GEQ, token.SUB:
+				default:
+					continue
+				}
+				if !c.fromDynamicValue(bo.X, 0, map[ssa.Value]bool{}) || !c.fromDynamicValue(bo.Y, 0, map[ssa.Value]bool{}) {
+					continue
+				}
+				n++
+				k++
+				o.add(VIOLATED, fmt.Sprintf("%s/%s on two dynamic values #%d", c.fname(fn), bo.Op, k), relPath(c, bo.Pos()), "two values taken out of interface{} are ordered here with %s instead of internal.Compare: a second comparator that disagrees with the one behind filters, sorts and index keys for some values (uint64 above MaxInt64, wrapped differences, mixed numeric types)", bo.Op)
+			}
+		}
+	}
+	if n == 0 {
+		o.add(OK, "single comparator", "-", "outside internal/util no ordering operator or subtraction is applied to two values taken out of interface{}")
 	}
 	return o.list
 }
